@@ -32,6 +32,10 @@ Definition v6_servers (t : top) : list (list N) :=
 Definition self6_subst (self6 a : list N) : list N :=
   if forallb (fun x => x =? 0) a then self6 else a.        (* $self6 is held as :: *)
 
+(* RFC 1035 3.1: a domain name is a sequence of labels of 1..63 octets *)
+Definition name_ok (d : list N) : bool :=
+  forallb (fun l => (1 <=? lenN l) && (lenN l <=? 63)) (split_on 46 d).
+
 Definition nat64_len_ok (n : N) : bool :=
   existsb (N.eqb n) [32; 40; 48; 56; 64; 96].
 (* lifetime in the 13-bit field counted in units of 8 s, rounded up (RFC 8781 4.1) *)
@@ -54,10 +58,14 @@ Definition expected (t : top) (i : intf) (e : env) : rfc_ra :=
        end;
      r_dnssl :=
        match tri (i_dnssl i) (Some (t_dns_search t)) with
-       | Some (d :: ds) =>
-         [(sat 4294967295 (d_secs (tri_or (i_dnssl_lifetime i) (secs 1800))),
-           map (split_on 46) (d :: ds))]
-       | _ => []
+       | Some l =>
+         match filter name_ok l with             (* what is not a domain name is not advertised *)
+         | d :: ds =>
+           [(sat 4294967295 (d_secs (tri_or (i_dnssl_lifetime i) (secs 1800))),
+             map (split_on 46) (d :: ds))]
+         | [] => []
+         end
+       | None => []
        end;
      r_pref64 :=
        match i_pref64 i with
